@@ -96,7 +96,9 @@ struct StModel {
       for (auto& e : obs.at("k_set").as_array()) if (e.as_object().at("f").to_number<std::int64_t>() != 0) return false;
     return true;
   }
-  void mask(bj::object&) const {}
+  void mask(bj::object& o) const { o.erase("same_set"); }   // constrained by membership (observe), not by equality
+  const bj::object* expected_ = nullptr;
+  void set_expected(const bj::object& o) { expected_ = &o; }
 
   bj::object apply(const bj::object& act) {
     std::string op(act.at("op").as_string());
@@ -256,6 +258,31 @@ struct StModel {
         auto f = vertices_of(pr.first);
         faces1.push_back(f);
         bd.push_back(bj::object{{"face", jarr(f)}, {"opp", unlab(pr.second)}});
+      }
+      if constexpr (Options::store_filtration) {
+        if (expected_ && expected_->contains("same_set")) {
+          for (auto& rv : expected_->at("same_set").as_array()) {
+            const bj::object& r = rv.as_object();
+            if (ints(r.at("s")) != p.first) continue;
+            auto has = [&](const char* key, const std::vector<int>& x) {
+              for (auto& e : r.at(key).as_array()) if ((e.is_array() ? ints(e) : std::vector<int>{static_cast<int>(e.to_number<std::int64_t>())}) == x) return true;
+              return false;
+            };
+            auto v = c.vertex_with_same_filtration(sh);
+            if (v == c.null_vertex() ? !r.at("v_set").as_array().empty() : !has("v_set", {unlab(v)}))
+              failed.push_back("vertex_with_same_filtration is not a vertex with the simplex's value / null although one exists");
+            if (p.first.size() >= 2) {
+              SH e = c.edge_with_same_filtration(sh);
+              if (e == c.null_simplex() ? !r.at("e_set").as_array().empty() : !has("e_set", vertices_of(e)))
+                failed.push_back("edge_with_same_filtration is not an edge with the simplex's value / null although one exists");
+            }
+            if (!r.at("m_set").as_array().empty()) {
+              SH t = c.minimal_simplex_with_same_filtration(sh);
+              if (t == c.null_simplex() || !has("m_set", vertices_of(t)))
+                failed.push_back("minimal_simplex_with_same_filtration is not a minimal face with the simplex's value");
+            }
+          }
+        }
       }
       std::vector<std::vector<int>> faces2;
       for (auto b : c.boundary_simplex_range(sh)) faces2.push_back(vertices_of(b));
